@@ -4385,7 +4385,12 @@ func (r *RoutingPolicy) AddDefinedSet(s DefinedSet, replace bool) error {
 	if m, ok := r.definedSetMap[s.Type()]; !ok {
 		return fmt.Errorf("invalid defined-set type: %d", s.Type())
 	} else {
-		if d, ok := m[s.Name()]; ok && !replace {
+		if d, ok := m[s.Name()]; ok {
+			// Conditions of existing statements refer to the set object:
+			// change it in place so that they see the new content.
+			if replace {
+				return d.Replace(s)
+			}
 			if err := d.Append(s); err != nil {
 				return err
 			}
